@@ -321,6 +321,17 @@ func c09r4(c *Ctx) {
 				if !ok || !strings.HasSuffix(fa.Type().(*types.Pointer).Elem().String(), modPath+".PayableHandler") {
 					continue
 				}
+				// only the handler fields of the function objects: a local parameter object that copies the handler for a helper
+				// is not state
+				isObj := false
+				for _, r := range c.P.Registrations() {
+					if r.Type != nil && sameBase(fa.X.Type(), r.Type) {
+						isObj = true
+					}
+				}
+				if !isObj {
+					continue
+				}
 				construct := "store ." + fieldName(fa.X.Type(), fa.Field) + " = " + e.Term(st.Val)
 				switch {
 				case ctors[fn]:
